@@ -288,7 +288,13 @@ func runDeployment1(d *Deployment, rt routes, prefixes []string, c *vlib.Cases, 
 				c.Emit(map[string]any{"kind": "proxy", "prefix": p, "eps": d.EPs, "shadowed": d.Shadowed, "path": sub, "model": m, "impl": o})
 			}
 		}
+		var subs []string
 		for _, sub := range rt.listing[p] {
+			// the listing routes as registered, and the spellings clients produce by joining a base URL and a path: a
+			// trailing slash, a query.  Whatever route ends up serving them, the answer names this provider's models only
+			subs = append(subs, sub, sub+"/", sub+"?limit=5")
+		}
+		for _, sub := range subs {
 			r := stack.Do(s.Addr, stack.Request("GET", "/olla/"+p+sub, "x", nil, nil, false), 5*time.Second)
 			o := obs{Status: r.Status, Err: r.Err, Contacted: []string{}, IDs: extractIDs(r.Body)}
 			if o.IDs == nil {
